@@ -31,7 +31,7 @@ if res["confirmed"]:
     assert sh("git -C /repo status --porcelain").stdout.strip() == "", "/repo not clean"
     assert sh(f"git -C /repo apply {patch}").returncode == 0
     try:
-        c = sh(f"cd {VERIF} && ./check.py {prop} --tier quick", timeout=3000)
+        c = sh(f"cd {VERIF} && VERIF_EVIDENCE_DIR=$(mktemp -d) ./check.py {prop} --tier quick", timeout=3000)
         res["check_exit"] = c.returncode
         res["check_violations"] = [l for l in c.stdout.split("\n") if l.startswith("VIOLATION")][:6]
         res["check_tail"] = c.stderr.strip().split("\n")[-1:]
